@@ -13,7 +13,7 @@ import (
 func init() {
 	register(&propCheck{
 		id:   "C18",
-		pkgs: []string{"tools/flow"},
+		pkgs: []string{"tools/flow", "internal/core/dep"},
 		run:  checkC18,
 		about: "C18 (workflow tasks run once, after their dependencies): the controller is a typestate machine owned by one goroutine. Decides (a) the relation of all assignments to Task.state, with their source-state guards, is a subset of {Waiting->Ready, Ready->Running, Running->Terminated, Waiting->Terminated}; tasks received from taskCh were sent only by the goroutine started right after state=Running; " +
 			"(b) state=Ready lies behind isReady() being true, isReady returns true only after every depTask reported done(), and done() holds exactly for Terminated (constant-folded over the enum); " +
@@ -21,7 +21,7 @@ func init() {
 			"(d) the task goroutine and the runner-facing Task methods write only Task.err / Task.update, and the goroutine's last action on every path is the send on taskCh; Task.state is assigned only by the controller goroutine's functions; " +
 			"(e) checkCycle is evaluated on every non-failing initTasks path, its error reaches c.errs, and runLoop's loop tests c.errs; " +
 			"(f) the `running` flag that decides whether runLoop blocks on taskCh is set exactly for tasks already Running or started in the same iteration; Task.Fill extends a pending result instead of overwriting it and updateTaskResults clears it only after taking it.",
-		trust: []string{"dependency discovery (dep.Visit) is not analysed", "Runner implementations are external"},
+		trust: []string{"dependency discovery (dep.Visit) is analysed only for the operand-context rule", "Runner implementations are external"},
 	})
 }
 
@@ -75,6 +75,7 @@ func checkC18(c *Ctx) {
 	c18Accumulate(c)
 	c18ImpliedTask(c)
 	c18TerminatedReleases(c)
+	c18OperandContexts(c)
 	c18Cycle(c)
 	c.expect("typestate.transition", 4)
 }
@@ -1055,4 +1056,96 @@ func c18TerminatedReleases(c *Ctx) {
 	}
 	c.check("release.every-termination-marks-ready", rl.Name, rl.Body.Pos(), ok,
 		"every assignment of Terminated in runLoop must be followed by markReady before the loop can decide that nothing is running: a task dropped because its path vanished counts as completed for its dependants, which otherwise stay Waiting (spurious \"deadlock\" on an acyclic workflow)"+det)
+}
+
+// c18OperandContexts: dependency discovery (internal/core/dep) in dynamic mode
+// finds references inside list and struct literals by descending into the
+// *arcs* they become. A literal that is only an operand — a call argument, the
+// source of a `for` clause, the subject of a slice — never becomes an arc of
+// the visited node, so its elements must be visited on the spot: the visitor
+// forces full traversal (c.all = true, restored afterwards) around such
+// operands. The three operand contexts must agree; otherwise
+// `in: {for x in [a.out] {...}}` creates no dependency on task a and the
+// dependant starts first.
+func c18OperandContexts(c *Ctx) {
+	const depP = "internal/core/dep"
+	p := c.pkgOpt(depP)
+	if p == nil {
+		c.check("deps.operand-contexts-visit-everything", depP, 0, false, "anchor: package internal/core/dep not loaded")
+		return
+	}
+	type site struct {
+		name string
+		fn   string
+		arg  func(e ast.Expr, info *types.Info) bool
+	}
+	sites := []site{
+		{"call-arguments", "(*visitor).markExpr", func(e ast.Expr, info *types.Info) bool {
+			// the range variable of `for _, a := range x.Args`
+			id, ok := e.(*ast.Ident)
+			return ok && id.Name == "a"
+		}},
+		{"for-source", "(*visitor).markClauses", func(e ast.Expr, info *types.Info) bool { return strings.HasSuffix(exprString(e), ".Src") }},
+		{"slice-subject", "(*visitor).markExpr", func(e ast.Expr, info *types.Info) bool {
+			sel, ok := e.(*ast.SelectorExpr)
+			if !ok || sel.Sel.Name != "X" {
+				return false
+			}
+			t := info.TypeOf(sel.X)
+			return t != nil && strings.HasSuffix(t.String(), "adt.SliceExpr")
+		}},
+	}
+	for _, s := range sites {
+		f := c.fn(depP, s.fn)
+		info := f.Info()
+		found, ok := false, false
+		var pos token.Pos
+		// walk blocks: the call (or the loop containing it) must have `c.all = true` before and `c.all = <saved>` after it in the same statement list
+		ast.Inspect(f.Body, func(n ast.Node) bool {
+			var list []ast.Stmt
+			switch b := n.(type) {
+			case *ast.BlockStmt:
+				list = b.List
+			case *ast.CaseClause:
+				list = b.Body
+			default:
+				return true
+			}
+			for i, st := range list {
+				has := false
+				ast.Inspect(st, func(m ast.Node) bool {
+					if call, isCall := m.(*ast.CallExpr); isCall && strings.HasSuffix(calleeName(info, call), ".(*visitor).markExpr") && len(call.Args) == 2 && s.arg(ast.Unparen(call.Args[1]), info) {
+						has = true
+						pos = call.Pos()
+					}
+					return true
+				})
+				if !has {
+					continue
+				}
+				// only consider the innermost list that directly holds the statement
+				if _, isBlockHolder := st.(*ast.BlockStmt); isBlockHolder {
+					continue
+				}
+				found = true
+				setBefore, restoreAfter := false, false
+				for _, b := range list[:i] {
+					if as, isAs := b.(*ast.AssignStmt); isAs && len(as.Lhs) == 1 && exprString(as.Lhs[0]) == "c.all" && exprString(as.Rhs[0]) == "true" {
+						setBefore = true
+					}
+				}
+				for _, a := range list[i+1:] {
+					if as, isAs := a.(*ast.AssignStmt); isAs && len(as.Lhs) == 1 && exprString(as.Lhs[0]) == "c.all" && exprString(as.Rhs[0]) != "true" {
+						restoreAfter = true
+					}
+				}
+				if setBefore && restoreAfter {
+					ok = true
+				}
+			}
+			return true
+		})
+		c.check("deps.operand-contexts-visit-everything", f.Name+"/"+s.name, pos, found && ok,
+			"the visitor must force full traversal (c.all = true … restored) around an operand that never becomes an arc of the visited node ("+s.name+"): in dynamic mode the elements of a list or struct literal used there are otherwise never visited and the references inside create no dependency")
+	}
 }
